@@ -34,6 +34,12 @@ pub struct Case {
   pub faults: Vec<RawFault>,
   /// 0 = npm resolution works, 1 = `pkg` fails, 2 = dependency graph fails
   pub npm_mode: u8,
+  /// a registry and an entry module importing from it
+  #[serde(default)]
+  pub jsr: Option<crate::props::c07::JsrPart>,
+  /// the registry entry module is added by a second build() on the graph
+  #[serde(default)]
+  pub jsr_second_build: bool,
 }
 
 fn params(tier: Tier) -> GenParams {
@@ -56,11 +62,15 @@ pub fn spec() -> PropSpec<Case> {
           0..=4,
         ),
         prop_oneof![3 => Just(0u8), 1 => Just(1u8), 1 => Just(2u8)],
+        proptest::option::weighted(0.35, crate::props::c07::jsr_part_strategy()),
+        proptest::bool::weighted(0.4),
       )
-        .prop_map(|(build, faults, npm_mode)| Case {
+        .prop_map(|(build, faults, npm_mode, jsr, jsr_second_build)| Case {
           build,
           faults,
           npm_mode,
+          jsr,
+          jsr_second_build,
         })
         .boxed()
     },
@@ -96,26 +106,52 @@ fn run(
   plan: BTreeMap<(String, u32), Fault>,
   npm_mode: u8,
 ) -> (ModuleGraph, WorldLoader) {
-  let mut loader = WorldLoader::from_world(&b.world);
+  run_jsr(b, None, false, plan, npm_mode)
+}
+
+fn run_jsr(
+  b: &BuildCase,
+  jsr: Option<&crate::props::c07::JsrPart>,
+  second_build: bool,
+  plan: BTreeMap<(String, u32), Fault>,
+  npm_mode: u8,
+) -> (ModuleGraph, WorldLoader) {
+  let mut served = crate::harness::materialize(&b.world);
+  let mut cache = None;
+  if let Some(j) = jsr {
+    cache = Some(j.install(&mut served));
+  }
+  let mut loader = WorldLoader::new(served);
+  loader.cache = cache;
   loader.faults = plan;
   let npm = npm_of(npm_mode);
   let mut graph = ModuleGraph::new(b.opts.graph_kind());
-  build_into(
-    &mut graph,
-    parse_roots(&b.roots),
-    parse_imports(&b.imports),
-    BuildEnv {
-      loader: &loader,
-      opts: &b.opts,
-      locker: None,
-      npm: Some(&npm),
-      jsr_version_resolver: None,
-      prefer_cached: false,
-    },
-    &Schedule::default(),
-    false,
-  )
-  .expect("ungated build");
+  let mut steps: Vec<Vec<String>> = vec![b.roots.clone()];
+  if jsr.is_some() {
+    if second_build {
+      steps.push(vec![crate::props::c07::JSR_MAIN.to_string()]);
+    } else {
+      steps[0].push(crate::props::c07::JSR_MAIN.to_string());
+    }
+  }
+  for (i, roots) in steps.iter().enumerate() {
+    build_into(
+      &mut graph,
+      parse_roots(roots),
+      if i == 0 { parse_imports(&b.imports) } else { vec![] },
+      BuildEnv {
+        loader: &loader,
+        opts: &b.opts,
+        locker: None,
+        npm: Some(&npm),
+        jsr_version_resolver: None,
+        prefer_cached: jsr.map(|j| j.prefer_cached).unwrap_or(false),
+      },
+      &Schedule::default(),
+      false,
+    )
+    .expect("ungated build");
+  }
   (graph, loader)
 }
 
@@ -154,7 +190,8 @@ pub fn make_fault(kind: u8, arg: u16, loaded: &[String], own: &str) -> (Fault, O
 pub fn check(case: &Case, _tier: Tier) -> Outcome {
   let mut o = Outcome::default();
   let b = &case.build;
-  let (g0, l0) = run(b, BTreeMap::new(), case.npm_mode);
+  let jsr = case.jsr.as_ref();
+  let (g0, l0) = run_jsr(b, jsr, case.jsr_second_build, BTreeMap::new(), case.npm_mode);
   invariants(&g0, &mut o, "fault-free");
   let log0 = l0.log.borrow().clone();
   let loaded: Vec<String> = {
@@ -179,20 +216,28 @@ pub fn check(case: &Case, _tier: Tier) -> Outcome {
         touched.insert(t);
       }
       simple.retain(|(s, _)| s != &call.spec || attempt != 0);
-      if attempt == 0 && f.kind <= 1 {
+      let registry_resource = call.spec.starts_with(crate::registry::REGISTRY)
+        || call.spec.starts_with("jsr:");
+      if attempt == 0 && f.kind <= 1 && !registry_resource && call.cache != "only" {
         simple.push((call.spec.clone(), f.kind));
       }
       plan.insert((call.spec.clone(), attempt), fault);
     }
   }
   let nfaults = plan.len();
-  let (gf, lf) = run(b, plan, case.npm_mode);
+  let (gf, lf) = run_jsr(b, jsr, case.jsr_second_build, plan, case.npm_mode);
   let fired = check_faulted(b, &g0, &gf, &lf, &touched, &simple, &mut o);
   if fired > 0 {
     o.label("fault-fired");
   }
   if case.npm_mode != 0 {
     o.label("npm-failure-mode");
+  }
+  if jsr.is_some() {
+    o.label("jsr-registry");
+    if case.jsr_second_build {
+      o.label("jsr-in-second-build");
+    }
   }
   o.label(format!("faults-{nfaults}"));
   o
@@ -239,7 +284,21 @@ fn check_faulted(
   let logf = lf.log.borrow().clone();
   // --- fault -> error entry with referrer
   let entries = obs::entries(gf, false);
+  // after a cache busting restart the graph is the result of the second pass,
+  // in which the (attempt-keyed) faults of the first pass no longer apply
+  let restarted = b
+    .roots
+    .iter()
+    .map(|r| r.as_str())
+    .chain(std::iter::once(crate::props::c07::JSR_MAIN))
+    .any(|r| logf.iter().filter(|c| c.spec == r).count() >= 2)
+    || logf
+      .iter()
+      .any(|c| c.cache == "reload" && c.spec.ends_with("/meta.json"));
   for (spec, kind) in simple {
+    if restarted {
+      break;
+    }
     if !fired.iter().any(|(s, a)| s == spec && *a == 0) {
       continue;
     }
@@ -352,10 +411,38 @@ fn check_faulted(
     }
   }
   // --- isolation
-  let f: BTreeSet<ModuleSpecifier> = touched
+  let f_exact: BTreeSet<ModuleSpecifier> = touched
     .iter()
     .filter_map(|s| ModuleSpecifier::parse(s).ok())
     .collect();
+  // a fault on any resource of a registry package (metadata, manifest, file)
+  // touches everything resolved through that package
+  let faulted_packages: BTreeSet<String> = touched
+    .iter()
+    .filter_map(|s| {
+      let rest = s.strip_prefix(crate::registry::REGISTRY)?;
+      let mut parts = rest.splitn(3, '/');
+      Some(format!("{}/{}", parts.next()?, parts.next()?))
+    })
+    .collect();
+  struct Faulted {
+    exact: BTreeSet<ModuleSpecifier>,
+    packages: BTreeSet<String>,
+  }
+  impl Faulted {
+    fn contains(&self, s: &ModuleSpecifier) -> bool {
+      self.exact.contains(s)
+        || self.packages.iter().any(|p| {
+          s.as_str().starts_with(&format!("{}{p}/", crate::registry::REGISTRY))
+            || s.as_str().starts_with(&format!("jsr:{p}@"))
+            || s.as_str() == format!("jsr:{p}")
+        })
+    }
+  }
+  let f = Faulted {
+    exact: f_exact,
+    packages: faulted_packages,
+  };
   let mut reach: BTreeSet<ModuleSpecifier> = BTreeSet::new();
   let mut work: Vec<ModuleSpecifier> = Vec::new();
   let mut seen: BTreeSet<ModuleSpecifier> = BTreeSet::new();
@@ -505,6 +592,8 @@ pub fn extra(tier: Tier, seed: u64) -> ExtraReport {
               arg,
             }],
             npm_mode: 0,
+            jsr: None,
+            jsr_second_build: false,
           };
           let case_json = serde_json::to_value(&case).unwrap();
           let res = std::panic::catch_unwind(std::panic::AssertUnwindSafe(|| {
